@@ -15,6 +15,7 @@ from __future__ import annotations
 
 import ast
 import copy
+import re
 from fractions import Fraction
 from typing import Dict, List, Optional, Tuple
 
@@ -112,8 +113,17 @@ class Region:
                     yield from e.region.all_effects()
 
 
+_EPOCH_TAG = re.compile(r'(?<=[\w\]\)])@\d+')
+_VER_TAG = re.compile(r'\$g?\d+')
+
+
+def plain(s: str) -> str:
+    """a location name without version ($n) and epoch (@n) tags"""
+    return _VER_TAG.sub('', _EPOCH_TAG.sub('', s))
+
+
 class State:
-    __slots__ = ('locals', 'heap', 'lits', 'effects', 'epoch', 'counters', 'known')
+    __slots__ = ('locals', 'heap', 'lits', 'effects', 'epoch', 'counters', 'known', 'versions')
 
     def __init__(self):
         self.locals: Dict[str, ast.expr] = {}
@@ -123,6 +133,15 @@ class State:
         self.epoch = 0
         self.counters: Dict[str, int] = {}
         self.known: Dict[tuple, bool] = {}
+        self.versions: Dict[str, int] = {}
+
+    def bump(self, key: str):
+        """the object behind `root.field` was changed in place (element store, mutator call): later
+        reads of anything reached through it are reads of a new version"""
+        parts = plain(key).split('[')[0].split('.')
+        if len(parts) >= 2:
+            b = parts[0] + '.' + parts[1]
+            self.versions[b] = self.versions.get(b, 0) + 1
 
     def fork(self) -> 'State':
         s = State.__new__(State)
@@ -133,6 +152,7 @@ class State:
         s.epoch = self.epoch
         s.counters = dict(self.counters)
         s.known = dict(self.known)
+        s.versions = dict(self.versions)
         return s
 
 
@@ -402,9 +422,10 @@ class Executor:
             return res
         if isinstance(s, ast.Delete):
             for t in s.targets:
-                k = term(self.subst(t, st, fctx))
+                k = plain(term(self.subst(t, st, fctx, load_target=False)))
                 st.effects.append(Effect('del', target=k, lineno=ln, epoch=st.epoch))
                 self._invalidate(st, k)
+                st.bump(k)
             return [(st, ('fall',))]
         if isinstance(s, (ast.Import, ast.ImportFrom, ast.Global, ast.Nonlocal, ast.FunctionDef, ast.ClassDef)):
             if isinstance(s, ast.FunctionDef):
@@ -619,13 +640,16 @@ class Executor:
             return
         if isinstance(target, (ast.Attribute, ast.Subscript)):
             t2 = self.subst(target, st, fctx, load_target=False)
-            key = term(t2)
+            key = plain(term(t2))
             if value is None:
                 value = name(loopvar or '@undef')
             vterm = term(value)
             self._invalidate(st, key)
             st.heap[key] = value
             st.effects.append(Effect('write', target=key, value=vterm, lineno=ln, epoch=st.epoch))
+            parts = key.split('[')[0].split('.')
+            if '[' in key or len(parts) > 2:
+                st.bump(key)              # an element / member of the object changed, not the binding itself
             st.known = {}
             return
         if isinstance(target, ast.Starred):
@@ -855,7 +879,7 @@ class _Ev:
 
     def load_attr(self, v, attr, st):
         node = ast.Attribute(value=v, attr=attr, ctx=ast.Load())
-        key = term(node)
+        key = plain(term(node))
         if key in st.heap:
             return [(st, st.heap[key], None)]
         # property getter on self
@@ -869,17 +893,25 @@ class _Ev:
         return [(st, self.tag(node, key, st), None)]
 
     def tag(self, node, key, st):
-        """epoch-tag loads of state that may change while suspended"""
+        """tag loads of state that may have changed: @k = after the k-th suspension (another process may have
+        written it), $n = after the n-th in-place change of the object on this path"""
         root = key.split('[')[0]
         parts = root.split('.')
         if parts[-1] == 'now' and len(parts) >= 2 and parts[-2].endswith('env') or key in ('env.now',):
             return name('NOW@%d' % st.epoch) if st.epoch else name('NOW')
         if key == 'self._now' or key == 'self.now':
             return node
+        full = term(node)
+        if len(parts) == 2 and '[' not in key:
+            v = st.versions.get(root, 0)
+            g = st.versions.get('*', 0) if parts[0] == 'self' else 0
+            if v or g:
+                full = full + ('$%d' % v if v else '') + ('$g%d' % g if g else '')
+                node = name(full)
         if st.epoch and parts[0] == 'self' and len(parts) >= 2:
             vol = parts[1] in self.x.volatile or (len(parts) > 2 and parts[1] not in self.x.opts.stable_fields)
             if vol:
-                return name('%s@%d' % (key, st.epoch))
+                return name('%s@%d' % (full, st.epoch))
         return node
 
     def e_Subscript(self, e, st):
@@ -893,7 +925,7 @@ class _Ev:
                     res.append((s3, i, ex2))
                     continue
                 node = ast.Subscript(value=v, slice=i, ctx=ast.Load())
-                key = term(node)
+                key = plain(term(node))
                 if key in s3.heap:
                     res.append((s3, s3.heap[key], None))
                 elif isinstance(v, (ast.Tuple, ast.List)) and isinstance(i, ast.Constant) and isinstance(i.value, int) \
@@ -1176,9 +1208,10 @@ class _Ev:
                                       keywords=[ast.keyword(arg=k, value=v) for k, v in kwargs]), None)]
             out = self.effect_call(full, ast.Attribute(value=recv, attr=meth, ctx=ast.Load()), args, kwargs, st, ln)
             # a call on an object may change that object's fields
+            prt = plain(rterm)
             for s2, _v, _e in out:
                 for k in list(s2.heap):
-                    if k.startswith(rterm + '.') or k.startswith(rterm + '[') or k == rterm:
+                    if k.startswith(prt + '.') or k.startswith(prt + '[') or k == prt:
                         if meth in MUTATORS or rterm.startswith('self.'):
                             s2.heap.pop(k, None)
             return out
@@ -1204,12 +1237,18 @@ class _Ev:
             return [(st, ast.Constant(value=None), None)]
         if callee in self.x.opts.pure_calls:
             return [(st, node, None)]
+        callee = plain(callee)
         k = st.counters.get(callee, 0) + 1
         st.counters[callee] = k
         aterms = [term(a) for a in args]
         sym = '@%s(%s)#%d' % (callee, ','.join(aterms), k)
         st.effects.append(Effect('call', target=callee, args=aterms, kwargs=[(kk, term(v)) for kk, v in kwargs],
                                  sym=sym, lineno=ln, epoch=st.epoch))
+        cparts = callee.split('[')[0].split('.')
+        if len(cparts) >= 3:
+            st.bump(callee)               # a method call on the object behind root.field may change it in place
+        elif len(cparts) == 2 and cparts[0] == 'self':
+            st.versions['*'] = st.versions.get('*', 0) + 1      # un-inlined self call: any field may change
         st.known = {}
         return [(st, name(sym), None)]
 
